@@ -1228,3 +1228,165 @@ def _oshow(t):
         return repr(t[1])
     args = sorted(_oshow(a) for a in t[3]) if isinstance(t[3], frozenset) else [_oshow(a) for a in t[3]]
     return '%s%s(%s)' % (t[1], ('[%s]' % ', '.join(_oshow(a) for a in t[2])) if t[2] else '', ', '.join(args))
+
+
+# ===================================================================================== R-CARRY: online emit / carry-over split
+def check_carry(ix, rep, f, opname, rule='R-CARRY', slot_prefix=''):
+    """dense-time online once[a,b]/historically[a,b]: after the merge, every segment (b0, b1, v) of the stack is split at the frontier
+    R = time of the last input sample: the part up to R is emitted, the part beyond R is carried to the next update.  The split only
+    compares b0, b1 and R, so it is evaluated on the five weak orderings of R against b0 < b1:
+        a sample [b0, v] is emitted iff b0 <= R (it may be dropped only when v equals the previous value);
+        the carried segments cover exactly (max(b0, R), b1) with value v when R < b1, and nothing when b1 <= R."""
+    slot = '%s%s:carry' % (slot_prefix, opname)
+    try:
+        info = find_step(f.node)
+        return _check_carry(rep, f, opname, rule, slot, info)
+    except Shape as e:
+        rep.error('%s (%s): %s; the carry-over loop was decided on the pinned tree' % (f.where, f.qual, e))
+        return 0
+
+
+def _check_carry(rep, f, opname, rule, slot, info):
+    stack = info['stack']
+    loops = [s for s in f.node.body if isinstance(s, ast.For) and any(isinstance(n, ast.Name) and n.id == stack for n in ast.walk(s.iter))]
+    if len(loops) != 1:
+        raise Shape('%d loops over the segment stack after the merge' % len(loops))
+    lp = loops[0]
+    it = lp.iter
+    idx = None
+    if isinstance(it, ast.Call) and isinstance(it.func, ast.Name) and it.func.id == 'enumerate' and _is_name(it.args[0], stack) and isinstance(lp.target, ast.Tuple):
+        idx, seg = lp.target.elts[0].id, lp.target.elts[1].id
+    elif _is_name(it, stack) and isinstance(lp.target, ast.Name):
+        seg = lp.target.id
+    else:
+        raise Shape('carry loop iterates %s' % ast.unparse(it)[:40])
+    # names: frontier attribute, carried list, result list
+    frontier = None
+    for n in ast.walk(lp):
+        if isinstance(n, ast.Compare):
+            for x in [n.left] + list(n.comparators):
+                if isinstance(x, ast.Attribute) and isinstance(x.value, ast.Name) and x.value.id == 'self':
+                    frontier = ast.unparse(x)
+    if frontier is None:
+        raise Shape('no frontier attribute compared with the segment ends')
+    carried_name = None
+    for n in ast.walk(lp):
+        if isinstance(n, ast.Call) and isinstance(n.func, ast.Attribute) and n.func.attr == 'append' and isinstance(n.func.value, ast.Attribute) \
+                and isinstance(n.func.value.value, ast.Name) and n.func.value.value.id == 'self':
+            carried_name = ast.unparse(n.func.value)
+    if carried_name is None:
+        raise Shape('nothing is carried to the next update')
+    problems = []
+    nstates = 0
+    for pos, (R,) in (('R < b0', (0,)), ('R = b0', (1,)), ('b0 < R < b1', (2,)), ('R = b1', (3,)), ('b1 < R', (4,))):
+        b0, b1 = Fraction(1), Fraction(3)
+        for veq in (False, True):
+            for last in (False, True):
+                nstates += 1
+                env = {'seg': (b0, b1, 'v'), 'R': Fraction(R), 'prev': 'v' if veq else 'other', 'last': last}
+                emitted, carried = [], []
+                _run_carry(lp.body, env, seg, idx, stack, frontier, carried_name, emitted, carried)
+                Rv = Fraction(R)
+                state = '%s, value %s the previous one%s' % (pos, '=' if veq else '!=', ', last segment' if last else '')
+                # emission
+                must = (b0 <= Rv) and not veq
+                if must and not any(t == b0 and v == 'v' for t, v in emitted):
+                    problems.append(('emit', 'state %s: the segment starts inside the known region but no sample [b0, v] is emitted' % state))
+                for (t, v) in emitted:
+                    if v != 'v' or not (t == b0 or t == Rv):
+                        problems.append(('emit-what', 'state %s: emits [%s, %s]' % (state, t, v)))
+                    if b0 > Rv:
+                        problems.append(('emit-early', 'state %s: emits a sample for a segment that starts after the last input sample' % state))
+                # carry-over
+                if Rv < b1:
+                    want_lo = max(b0, Rv)
+                    cov = sorted((c[0], c[1]) for c in carried)
+                    if not carried:
+                        problems.append(('lost', 'state %s: the part of the segment after the last input sample, (%s, b1), is neither emitted nor carried to the next update: '
+                                         'its value is forgotten, so feeding the same signal in smaller chunks gives a different result (and a later pop loop can empty the stack)'
+                                         % (state, 'b0' if b0 >= Rv else 'R')))
+                    elif cov[0][0] != want_lo or cov[-1][1] != b1 or any(x[1] != y[0] for x, y in zip(cov, cov[1:])) or any(c[2] != 'v' for c in carried):
+                        problems.append(('carry-what', 'state %s: carries %s instead of (%s, b1, v)' % (state, carried, 'b0' if b0 >= Rv else 'R')))
+                elif carried:
+                    problems.append(('carry-done', 'state %s: a segment that ends inside the known region is carried again' % state))
+    seen = set()
+    for key, text in problems:
+        if key in seen:
+            continue
+        seen.add(key)
+        rep.fail(rule, f.module.rel, f.qual, '%s:%s' % (slot, key), '%s carry-over: %s' % (opname, text), lp.lineno)
+    if not problems:
+        rep.ok(rule, f.module.rel, f.qual, slot, '%d states of (frontier vs segment) x (value = previous) x last: emitted up to the frontier, the rest carried' % nstates, lp.lineno)
+    return nstates
+
+
+def _run_carry(stmts, env, seg, idx, stack, frontier, carried_name, emitted, carried):
+    def val(e):
+        if isinstance(e, ast.Subscript) and _is_name(e.value, seg) and isinstance(e.slice, ast.Constant):
+            return env['seg'][e.slice.value]
+        if isinstance(e, ast.Attribute) and ast.unparse(e) == frontier:
+            return env['R']
+        if isinstance(e, ast.Constant) and isinstance(e.value, (int, float)):
+            return Fraction(e.value)
+        if isinstance(e, ast.Name) and e.id in env.get('locals', {}):
+            return env['locals'][e.id]
+        if isinstance(e, ast.Name) and e.id == 'prev':
+            return env['prev']
+        raise Shape('carry expression %s' % ast.unparse(e)[:40])
+
+    def test(t):
+        if isinstance(t, ast.BoolOp):
+            vals = [test(v) for v in t.values]
+            return all(vals) if isinstance(t.op, ast.And) else any(vals)
+        if isinstance(t, ast.UnaryOp) and isinstance(t.op, ast.Not):
+            return not test(t.operand)
+        if isinstance(t, ast.Compare):
+            txt = ast.unparse(t).replace(' ', '')
+            if idx and txt in ('%s==len(%s)-1' % (idx, stack), 'len(%s)-1==%s' % (stack, idx)):
+                return env['last']
+            vals = [val(x) for x in [t.left] + list(t.comparators)]
+            ok = True
+            for x, op, y in zip(vals, t.ops, vals[1:]):
+                if isinstance(x, str) or isinstance(y, str):
+                    r = {ast.Eq: x == y, ast.NotEq: x != y}.get(type(op))
+                    if r is None:
+                        raise Shape('ordering test on a value in the carry loop')
+                else:
+                    r = {ast.Lt: x < y, ast.LtE: x <= y, ast.Gt: x > y, ast.GtE: x >= y, ast.Eq: x == y, ast.NotEq: x != y}[type(op)]
+                ok = ok and r
+            return ok
+        raise Shape('carry test %s' % ast.unparse(t)[:40])
+
+    for st in stmts:
+        if isinstance(st, ast.If):
+            _run_carry(st.body if test(st.test) else st.orelse, env, seg, idx, stack, frontier, carried_name, emitted, carried)
+        elif isinstance(st, ast.Assign) and len(st.targets) == 1 and isinstance(st.targets[0], ast.Name):
+            nm = st.targets[0].id
+            if nm == 'prev':
+                env['prev'] = val(st.value)
+            elif isinstance(st.value, (ast.List, ast.Tuple)):
+                env.setdefault('locals', {})[nm] = tuple(val(x) for x in st.value.elts)
+            else:
+                env.setdefault('locals', {})[nm] = val(st.value)
+        elif isinstance(st, ast.Expr) and isinstance(st.value, ast.Call) and isinstance(st.value.func, ast.Attribute) and st.value.func.attr == 'append':
+            tgt = ast.unparse(st.value.func.value)
+            a = st.value.args[0]
+            if tgt == carried_name:
+                if isinstance(a, ast.Name) and a.id == seg:
+                    carried.append(env['seg'])
+                elif isinstance(a, ast.Tuple) and len(a.elts) == 3:
+                    carried.append(tuple(val(x) for x in a.elts))
+                else:
+                    raise Shape('carried value %s' % ast.unparse(a)[:40])
+            else:
+                if isinstance(a, ast.Name) and a.id in env.get('locals', {}):
+                    v = env['locals'][a.id]
+                    emitted.append((v[0], v[1]))
+                elif isinstance(a, (ast.List, ast.Tuple)) and len(a.elts) == 2:
+                    emitted.append((val(a.elts[0]), val(a.elts[1])))
+                else:
+                    raise Shape('emitted value %s' % ast.unparse(a)[:40])
+        elif isinstance(st, ast.Pass):
+            pass
+        else:
+            raise Shape('carry statement %s' % ast.unparse(st)[:50])
